@@ -2642,7 +2642,13 @@ func (p *Posix) UploadPartCopy(ctx context.Context, upi *s3.UploadPartCopyInput)
 	// TODO: Should the checksum be recalculated or just copied ?
 	var hashRdr *utils.HashReader
 	if mpChecksums.Algorithm != "" {
-		if checksums.Algorithm == "" || mpChecksums.Algorithm != checksums.Algorithm {
+		// the checksum kept with the source object can only be reused for
+		// the part when the whole object is copied and that checksum is one
+		// over its data (not a composite of part checksums)
+		reusable := checksums.Algorithm == mpChecksums.Algorithm &&
+			startOffset == 0 && length == fi.Size() &&
+			checksums.Type != types.ChecksumTypeComposite
+		if !reusable {
 			hashRdr, err = utils.NewHashReader(tr, "", utils.HashType(strings.ToLower(string(mpChecksums.Algorithm))))
 			if err != nil {
 				return s3response.CopyPartResult{}, fmt.Errorf("initialize hash reader: %w", err)
